@@ -77,6 +77,7 @@ fn gen_base(r: &mut Prng) -> Base {
     let with_dumper = r.chance(2, 5);
     let mut stmts = {
         let mut g = Gen::new(r, &mut case, knobs, 0);
+        g.assign_names = NAMES.iter().map(|s| s.to_string()).collect();
         let mut stmts = vec![];
         for _ in 0..nst {
             g.nodes = 0;
@@ -228,7 +229,7 @@ impl Prop for C06 {
         // a failing context function at every invocation
         for k in 0..handler_invocations {
             let mut c = (*c0).clone();
-            c.fault = Some(Fault { task: 0, k, kind: FaultKind::Err });
+            c.fault = Some(Fault::once(0, k, FaultKind::Err));
             let c = Arc::new(c);
             let out = rt.sim(&c, &spec);
             if out.log.iter().any(|e| matches!(e, Ev::Fault { .. })) {
